@@ -270,6 +270,17 @@ def run_job(job):
         if "record" in out.aux: ep["rows"] = canon_compiled_record(cfg, out.aux["record"])
         ep["final"] = canon_gs(out, names)
         res["episodes"].append(ep)
+    if job.get("gym_full"):
+        # the gym-style loop over the whole advertised horizon: reset() followed by graph.max_steps calls of step() - every scheduled step once, none twice
+        jreset, jstep = jax.jit(G.reset), jax.jit(G.step)
+        res["calls_gym"] = []
+        for e in range(min(E, 2)):
+            del HOSTLOG[:]
+            gs = G.init(jax.random.PRNGKey(job.get("seed", 0)), starting_eps=e)
+            gs, ss = jreset(gs)
+            for i in range(int(G.max_steps)): gs, ss = jstep(gs)
+            jax.block_until_ready(gs.step)
+            with HOSTLOCK: res["calls_gym"].append(list(HOSTLOG))
     if job.get("eps_out_of_range"):
         # an episode index beyond the recorded range is clipped to the last episode (C09): the same steps execute, once each, with their own seq
         del HOSTLOG[:]
